@@ -12,6 +12,7 @@ import (
 	"strings"
 
 	"github.com/openconfig/goyang/pkg/yang"
+	"verif/internal/hooklog"
 	"verif/internal/job"
 	"verif/internal/prng"
 	"verif/internal/schema"
@@ -76,6 +77,8 @@ func owners(class string, d *Disc) []string {
 			return []string{"C06"}
 		}
 		return []string{"C04", "C06", "C07"}
+	case strings.HasPrefix(class, "trace-"):
+		return []string{"C07"}
 	case strings.HasPrefix(class, "panic"):
 		return []string{"*"}
 	}
@@ -509,12 +512,29 @@ func Run(j *job.Job, s *job.Sink) {
 			}()
 			ms := yang.NewModules()
 			var errs []error
-			for _, f := range cs.Files {
-				if err := ms.Parse(f.Text, f.Name); err != nil {
-					errs = append(errs, err)
+			evs := hooklog.Collect(func() {
+				for _, f := range cs.Files {
+					if err := ms.Parse(f.Text, f.Name); err != nil {
+						errs = append(errs, err)
+					}
 				}
+				errs = append(errs, ms.Process()...)
+			})
+			// offline checker over the augment trace of this run (C07: exactly once)
+			naug := 0
+			for _, m := range g.Mods {
+				naug += len(m.Augments)
 			}
-			errs = append(errs, ms.Process()...)
+			tf, stmts, merges := hooklog.CheckAugments(evs, len(errs) == 0, naug)
+			s.Count("hook_events", int64(len(evs)))
+			for _, e := range evs {
+				s.Count("hook:"+e.Name, 1)
+			}
+			s.Count("trace_augment_statements", int64(stmts))
+			s.Count("trace_augment_merges", int64(merges))
+			for _, f := range tf {
+				c.out = append(c.out, Disc{Class: f.Class, Detail: f.Detail})
+			}
 			switch {
 			case len(res.Errs) > 0 && len(errs) > 0:
 				s.Count("both_report_errors", 1)
